@@ -1114,3 +1114,29 @@ def is_empty_vec_base(v):
     if v[0] == "agg" and v[2] == "vec":
         return len(v[3]) == 0
     return v[0] == "call" and isinstance(v[3], str) and re.search(r"vec::Vec::(new|with_capacity)$", generic_path(v[3])) is not None
+
+
+def single_call_site(P, fn):
+    """(caller Fn, bb) when fn has exactly one production call site, else None."""
+    cs = [(c, b) for c, b in P.callers(fn.path) if "::tests::" not in c.path and "mock_querier" not in c.path]
+    return cs[0] if len(cs) == 1 else None
+
+
+def lift_value(P, fn, v, max_depth=3):
+    """Rewrite a value of helper `fn` into the context of its (unique) caller, repeatedly: parameters are replaced by the
+    call's argument values. Returns (context Fn, value)."""
+    d = 0
+    while d < max_depth:
+        d += 1
+        if fn.kind == "closure":
+            break
+        if not any(x[0] == "param" and x[1] == fn.path for x in walk(v)):
+            break
+        cs = single_call_site(P, fn)
+        if cs is None:
+            break
+        c, b = cs
+        cv = P.val_call(c, c.body, b)
+        v = subst_params(v, {("param", fn.path, i): a for i, a in enumerate(cv[4])})
+        fn = c
+    return fn, v
